@@ -1,5 +1,6 @@
-(** C04 — Raft store is crash-consistent at every file-write boundary (PARTIAL: index file at
-    full strength; the log / snapshot files enter only through an abstract interface).
+(** C04 — Raft store is crash-consistent at every file-write boundary (PARTIAL: index file and
+    append histories of one log file at full strength, the two composed for last_applied; delete-from
+    crash images, rollover across log files and snapshot files are not covered by a theorem).
     Statements only; every proof is [exact <lemma>].
 
     [journal sh ops] is the sequence of file mutations (create, write at offset) that the index
@@ -8,7 +9,9 @@
     (each mutation atomic, applied in issue order); [recover] is the restart. *)
 From RN Require Import Base.Res Base.Fs Codec.Varint RaftLog.IndexFile RaftLog.AddrMapProofs
   RaftLog.IndexCodecProofs RaftLog.IndexFileProofs RaftLog.Crash RaftLog.CrashProofs
-  RaftLog.CrashAck RaftLog.CrashAckProofs.
+  RaftLog.CrashAck RaftLog.CrashAckProofs
+  RaftLog.LogFile RaftLog.Layout RaftLog.WriteProofs RaftLog.InitProofs RaftLog.LogCrash RaftLog.LogCrashProofs
+  RaftLog.StoreCrash RaftLog.StoreCrashProofs.
 Local Open Scope N_scope.
 
 (** every crash state reopens without error, to exactly the state after some prefix of the
@@ -52,3 +55,40 @@ Theorem C04_crash_safe_acked : forall sh, shuffles sh -> forall ops k,
     i_index st = fst (arun (firstn j ops)) /\ i_applied st = snd (arun (firstn j ops)) /\
     forall i, In (EAck i) (firstn k (ejournal sh ops)) -> (i < j)%nat.
 Proof. exact crash_safe_acked. Qed.
+
+(** * the log file (model of LogInnerManager in RaftLog/LogFile.v, after the crash repairs)
+
+    [log_journal limit start pre split xs]: the file mutations, in program order, of a log file
+    that is created fresh and receives the appends [xs] (set_len when it must grow, the data write,
+    the index entry when a block of 128 completes).  For EVERY history of accepted appends
+    (all payloads, counts, block boundaries, file growth) and EVERY prefix k, init on the crashed
+    file succeeds and the log it exposes consists of exactly the first j submitted records, j = the
+    number of data writes in the prefix: contiguous, only submitted records with their original
+    term and payload, and every record whose write completed is there. *)
+Theorem C04_crash_safe_log_append : forall limit start pre split xs k,
+  limit <= 4096 -> appendable (c_fresh limit start pre split) xs ->
+  (k <= length (log_journal limit start pre split xs))%nat ->
+  exists s, init (crash_log (log_journal limit start pre split xs) k) limit start pre split = Ok s /\
+            recovered s start (firstn (data_writes (firstn k (log_journal limit start pre split xs))) xs).
+Proof. exact crash_safe_log_append. Qed.
+
+(** the interesting image: the data write that completes an index block is in the file, its index
+    entry is not; the repaired init rebuilds the entry and continues as on the complete file *)
+Theorem C04_init_lagging_index : forall c x limit pre split,
+  wfc c -> writable c x -> wfc (c_push c x) -> completes c x = true ->
+  init (Some (lag_file c x)) limit (c_first c) pre split =
+  init (Some (c_file (c_push c x))) limit (c_first c) pre split.
+Proof. exact init_lag. Qed.
+
+(** log file and last_applied header together, Raft applying only what it appended: in EVERY
+    crash state the log reopens as above and last_applied is 0 or below the recovered end index:
+    it never points past what the log reproduces (no snapshot involved) *)
+Theorem C04_crash_safe_store : forall limit start pre split ops k,
+  limit <= 4096 -> appendable (c_fresh limit start pre split) (appends ops) -> applied_ok start ops ->
+  (k <= length (full_journal limit start pre split ops))%nat ->
+  let P := firstn k (full_journal limit start pre split ops) in
+  let j := data_writes (log_muts P) in
+  exists s, init (apply_lmuts None (log_muts P)) limit start pre split = Ok s /\
+            recovered s start (firstn j (appends ops)) /\
+            (header_after P 0 = 0 \/ header_after P 0 < start + N.of_nat j).
+Proof. exact crash_safe_store. Qed.
